@@ -3,6 +3,7 @@
 mod bridge;
 mod common;
 mod io;
+mod r1;
 
 use common::Opts;
 use std::path::PathBuf;
@@ -70,6 +71,8 @@ fn main() {
         ("io", None, Some(p)) if ["C02", "C03", "C06", "C11"].contains(&p.as_str()) => {
             io::run_check(p, &opts)
         }
+        ("r1cs", Some(p), _) => r1::replay(p, quiet),
+        ("r1cs", None, Some(p)) if ["C13", "C14"].contains(&p.as_str()) => r1::run_check(p, &opts),
         _ => {
             eprintln!("HARNESS-ERROR: unknown engine/property combination");
             simcore::EXIT_HARNESS
